@@ -117,7 +117,7 @@ int backup_copy_file(const char *filename, const vector<UINT8> &data)
 } // backup_copy_file
 
 
-void backup_create_md5_file(const char *filename)
+void backup_create_md5_file(const char *filename, const char *data_filename)
 {
    UINT8  dig[16];
    MD5    md5;
@@ -128,12 +128,16 @@ void backup_create_md5_file(const char *filename)
 
    md5.Init();
 
-   thefile = fopen(filename, "rb");
+   if (data_filename == nullptr)
+   {
+      data_filename = filename;
+   }
+   thefile = fopen(data_filename, "rb");
 
    if (thefile == nullptr)
    {
       LOG_FMT(LERR, "%s: fopen(%s) failed: %s (%d)\n",
-              __func__, filename, strerror(errno), errno);
+              __func__, data_filename, strerror(errno), errno);
       exit(EX_SOFTWARE);
    }
 
